@@ -1,3 +1,219 @@
-import Babylon.Core.Proto
-/-! Line-protocol driver for property C17 (stub). -/
-def main : IO Unit := Babylon.Core.runLines (fun (s : Unit) _ => (s, "bad-op")) ()
+import Babylon.Core.Trace
+import Babylon.Pages.Model
+/-! Lock-step replay driver for property C17 (page allocators / object pool).
+stdin: runs `RUN <seed> mode=… cap=… batch=… count=… pool=… threads=…` / VRT trace lines / `END`;
+stdout per run: `ok <n>` | `diverge <why>`.
+Every atomic operation on the queue's ticket counters and slot words, every fence and every harness event
+must be exactly the next action of that thread in `Babylon.Pages.stepThread` (silent thread-local moves
+of the model are taken eagerly before the thread's next visible action).  Events-only traces (the ASan
+build of the harness, one thread) are replayed with `L2=1`: the model runs its own atomic steps between
+two events. -/
+open Babylon.Core Babylon.Pages
+
+structure RState where
+  c : Cfg
+  s : State
+  l2 : Bool := false          -- events only (single thread): atomic steps are internal
+  poolDtor : Bool := false
+  destroyed : List Nat := []
+  nQuiescent : Nat := 0
+
+def hdrVal (hdr : List String) (key : String) : Option String :=
+  (hdr.filterMap (fun h => if h.startsWith (key ++ "=") then some (h.drop (key.length + 1)).toString else none)).head?
+
+def initR (hdr : List String) : RState :=
+  let nat (k : String) : Nat := ((hdrVal hdr k).bind String.toNat?).getD 0
+  let mode := match hdrVal hdr "mode" with
+    | some "strict" => Mode.poolStrict
+    | some "auto" => Mode.poolAuto
+    | _ => Mode.pages
+  let count := match hdrVal hdr "count" with
+    | some "pre" => CountMode.pre
+    | some "post" => CountMode.post
+    | _ => CountMode.off
+  let c : Cfg := { cap := nat "cap", nthreads := nat "threads", batch := nat "batch", count := count, mode := mode, poolCap := nat "pool" }
+  { c := c, s := State.init c, l2 := nat "L2" == 1 }
+
+def showPc (p : Pc) : String := reprStr p
+
+/-- normalise an observed action: slot words carry the waiter flag in their high half -/
+def normAct : Act → Act
+  | .ld "slot" off o v => .ld "slot" off o (v % Babylon.Gen.Pages.verMod)
+  | .xchg "slot" off o old new => .xchg "slot" off o (old % Babylon.Gen.Pages.verMod) (new % Babylon.Gen.Pages.verMod)
+  | a => a
+
+def isEvent : Option Act → Bool
+  | some (.ev _) => true
+  | _ => false
+
+/-- take silent steps of thread `t`, then its next visible step, which must be `a` -/
+def matchStep (c : Cfg) (fuel : Nat) (s : State) (t : Nat) (a : Act) (tok : Nat) (spur : Bool) : Except String State :=
+  match fuel with
+  | 0 => .error "too many silent steps"
+  | fuel + 1 =>
+    match stepThread c s t tok spur with
+    | none => .error s!"implementation performs {reprStr a} but the model thread is at {showPc (s.th t).pc} with no enabled step (idle, or a guard of the assumed queue specification fails)"
+    | some (s', none) => matchStep c fuel s' t a tok spur
+    | some (s', some l) =>
+      if l = normAct a then .ok s' else .error s!"model expects {reprStr l}, implementation did {reprStr a}"
+
+/-- events-only replay: run thread `t` (silent and atomic steps) until its next step is the event `a` -/
+def matchEvent (c : Cfg) (fuel : Nat) (s : State) (t : Nat) (a : Act) (tok : Nat) : Except String State :=
+  match fuel with
+  | 0 => .error "no event after too many internal steps (spinning forever?)"
+  | fuel + 1 =>
+    match stepThread c s t tok false with
+    | none => .error s!"implementation emits {reprStr a} but the model thread is at {showPc (s.th t).pc} with no enabled step"
+    | some (s', l) =>
+      if isEvent l then (if l = some a then .ok s' else .error s!"model expects {reprStr l}, implementation did {reprStr a}")
+      else matchEvent c fuel s' t a tok
+
+/-- run thread `t` until it waits for its `ret` event (silent steps only; in L2 mode also atomic steps) -/
+def runToRet (c : Cfg) (l2 : Bool) (fuel : Nat) (s : State) (t : Nat) : Except String State :=
+  match fuel with
+  | 0 => .error "call does not finish"
+  | fuel + 1 =>
+    if (s.th t).pc = .retWait then .ok s else
+    match stepThread c s t 0 false with
+    | none => .error s!"implementation returned but the model thread is at {showPc (s.th t).pc} with no enabled step"
+    | some (s', none) => runToRet c l2 fuel s' t
+    | some (s', some l) =>
+      if l2 && !isEvent (some l) then runToRet c l2 fuel s' t
+      else .error s!"implementation returned but the model's next action is {reprStr l}"
+
+/-- quiescent shape of the queue (C01 `bq_inv` at quiescence), checked at every quiescent point -/
+def qshapeB (c : Cfg) (s : State) : Bool :=
+  decide (s.popIdx ≤ s.pushIdx) && decide (s.pushIdx ≤ s.popIdx + c.cap) && s.slots.length == c.cap &&
+  (List.range c.cap).all (fun d =>
+    let i := s.popIdx + d
+    match s.slots[i % c.cap]? with
+    | none => false
+    | some sl =>
+      sl.owner == none &&
+      (if i < s.pushIdx then sl.ver == expVer c.cap i .pop && sl.val.isSome
+       else sl.ver == expVer c.cap i .push && sl.val == none))
+
+def doCall (r : RState) (t : Nat) (op : Op) : Except String RState :=
+  match callOp r.c r.s t op with
+  | some s' => .ok { r with s := s' }
+  | none => .error s!"call {reprStr op} is not allowed in the model (thread at {showPc (r.s.th t).pc}, or the client contract fails: tokens not held / not fresh)"
+
+def doRet (r : RState) (t : Nat) (kind : OpKind) (result : List Nat) : Except String RState := do
+  let s1 ← runToRet r.c r.l2 100000 r.s t
+  let th := s1.th t
+  if th.kind ≠ kind then throw s!"implementation returns from {reprStr kind}, model thread is inside {reprStr th.kind}"
+  if th.result r.c ≠ result then throw s!"implementation returned {result}, model says {th.result r.c}"
+  match retOp r.c s1 t with
+  | some s2 => pure { r with s := s2 }
+  | none => throw "model cannot return"
+
+def stepObs (r : RState) (o : Obs) : Except String RState :=
+  let t := o.tid
+  if t ≥ r.c.nthreads then .error s!"thread {t} outside the configured {r.c.nthreads} threads" else
+  match Act.ofObs o with
+  | none => .error "unknown trace line"
+  | some (.ev ("ORACLE" :: _)) | some (.ev ("stats" :: _)) => .ok r
+  | some (.spawn _) | some (.join _) | some .exit => .ok r
+  | some (.fwait _ _ _ _) | some (.fwoke _ _ _) | some (.fwake _ _ _ _) => .ok r
+  | some (.race ws) => .error s!"payload race {ws}"
+  | some (.ev ["call", "alloc", n]) =>
+    match n.toNat? with
+    | some n => doCall r t (.alloc n)
+    | none => .error "bad number"
+  | some (.ev ("ret" :: "alloc" :: ids)) =>
+    match ids.mapM String.toNat? with
+    | some ids => doRet r t .alloc ids
+    | none => .error "bad ids"
+  | some (.ev ("call" :: "dealloc" :: ids)) =>
+    match ids.mapM String.toNat? with
+    | some ids => doCall r t (.dealloc ids)
+    | none => .error "bad ids"
+  | some (.ev ["ret", "dealloc"]) => doRet r t .dealloc []
+  | some (.ev ["call", "dtor"]) => doCall r t .dtor
+  | some (.ev ["ret", "dtor"]) => do
+    let r' ← doRet r t .dtor []
+    if !(cacheToks r'.s).isEmpty then throw s!"destructor returned, model cache still holds {cacheToks r'.s}"
+    pure r'
+  | some (.ev ("call" :: "bdtor" :: order)) =>
+    match order.mapM String.toNat? with
+    | some order => doCall r t (.bdtor order)
+    | none => .error "bad order"
+  | some (.ev ["ret", "bdtor"]) => do
+    let r' ← doRet r t .bdtor []
+    if !r'.s.bufs.flatten.isEmpty then throw s!"batch destructor returned, model thread buffers still hold {r'.s.bufs.flatten}"
+    pure r'
+  | some (.ev ["inject", o]) =>
+    match o.toNat? with
+    | some o => doCall r t (.inject o)
+    | none => .error "bad id"
+  | some (.ev ["call", "pop"]) => doCall r t .pop
+  | some (.ev ["call", "trypop"]) => doCall r t .tryPop
+  | some (.ev ["call", "push", o]) =>
+    match o.toNat? with
+    | some o => doCall r t (.push o)
+    | none => .error "bad id"
+  | some (.ev ["ret", "push"]) => doRet r t .push []
+  | some (.ev ["ret", w, x]) =>
+    let kind := if w == "pop" then OpKind.pop else OpKind.tryPop
+    if w != "pop" && w != "trypop" then .error "unknown ret" else
+    if x == "null" then doRet r t kind []
+    else match x.toNat? with
+      | some x => doRet r t kind [x]
+      | none => .error "bad id"
+  | some (.ev ["cached", n]) =>
+    if !quiescentB r.c r.s then .error "harness reports a quiescent point, model threads are not idle"
+    else if !qshapeB r.c r.s then .error "quiescent shape of the queue (assumed: C01 bq_inv) does not hold in the model state"
+    else if n.toNat? ≠ some (cacheToks r.s).length then .error s!"implementation caches {n} tokens, model {(cacheToks r.s).length}"
+    else if r.s.obtained ≠ r.s.returned + (toks r.c r.s).length then .error "model conservation broken"
+    else .ok { r with nQuiescent := r.nQuiescent + 1 }
+  | some (.ev ["count", n]) =>
+    if n.toNat? = some r.s.counter.toNat then .ok r else .error s!"allocated page counter {n}, model {r.s.counter}"
+  | some (.ev ["hits", a, b]) =>
+    if a.toNat? = some r.s.hitSum ∧ b.toNat? = some r.s.hitNum then .ok r
+    else .error s!"cache_hit_summary {a}/{b}, model {r.s.hitSum}/{r.s.hitNum}"
+  | some (.ev ["call", "pooldtor"]) =>
+    if quiescentB r.c r.s then .ok { r with poolDtor := true } else .error "pool destroyed while threads are inside"
+  | some (.ev ["ret", "pooldtor"]) =>
+    if r.destroyed.mergeSort = (cacheToks r.s).mergeSort then .ok r
+    else .error s!"pool destructor destroyed {r.destroyed}, model cache holds {cacheToks r.s}"
+  | some (.ev [w, p]) =>
+    match p.toNat? with
+    | none => .error "bad token"
+    | some p =>
+      if r.poolDtor then
+        if w == "up_free" then .ok { r with destroyed := p :: r.destroyed } else .error "event during pool destruction"
+      else if w == "up_alloc" || w == "up_free" || w == "recycle" then
+        (if r.l2 then matchEvent r.c 100000 r.s t (.ev [w, toString p]) p else matchStep r.c 10000 r.s t (.ev [w, toString p]) p false).map
+          (fun s' => { r with s := s' })
+      else .error "unknown event"
+  | some (.ev _) => .error "unknown event"
+  | some a =>
+    let pc := (r.s.th t).pc
+    match a with
+    | .fence _ => if pc = .idle then .ok r else (matchStep r.c 10000 r.s t a 0 false).map (fun s' => { r with s := s' })
+    | _ =>
+    if pc = .idle then
+      -- size() / harness inspection of the counters at a quiescent point
+      match a with
+      | .ld "popi" 0 _ v => if v = r.s.popIdx then .ok r else .error s!"popi is {v}, model {r.s.popIdx}"
+      | .ld "pushi" 0 _ v => if v = r.s.pushIdx then .ok r else .error s!"pushi is {v}, model {r.s.pushIdx}"
+      | _ => .error s!"implementation performs {reprStr a} but the model thread is idle"
+    else
+      let waitNoise : Bool := match a with
+        | .ld "slot" _ _ _ => decide (pc = .dlWait)
+        | .cas "slot" _ _ _ _ _ _ _ _ => decide (pc = .dlWait)
+        | _ => false
+      if waitNoise then .ok r else
+      let spur := match a with
+        | .cas _ _ true _ _ e _ ok obs => !ok && e == obs
+        | _ => false
+      (matchStep r.c 10000 r.s t a 0 spur).map (fun s' => { r with s := s' })
+
+def finalR (r : RState) : Except String Unit :=
+  if !quiescentB r.c r.s then .error "trace ended with a model thread inside a call"
+  else if !(toks r.c r.s).Nodup then .error "model reached a state where a token is in two places"
+  else if r.s.obtained ≠ r.s.returned + (toks r.c r.s).length then .error "model conservation broken"
+  else .ok ()
+
+def main : IO Unit := do
+  replayLoop (← IO.getStdin) initR stepObs finalR
